@@ -195,6 +195,20 @@ def explore(ctx):
                     ps = '[' + '; '.join('{| px := %s; pw := Some %s |}' % (clist(p, cq), cq(w)) for p, w in pts_v) + ']'
                     terms.append('ppv_view %s %d%%nat' % (ps, vaxis))
                     expect.append(('ppv', dict(info, vaxis=vaxis), obs, dx, dv))
+                # one ScalarStatistic object wrapped by several statistics that declare different velocity axes:
+                # each must answer like a statistic built on a fresh object
+                shared = stat_of(pts, 3)
+                names = ['major_sigma', 'minor_sigma', 'radius', 'area_ellipse', 'area_exact', 'position_angle',
+                         'x_cen', 'y_cen', 'v_cen', 'v_rms']
+                for vx in [rng.randrange(3) for _ in range(3)]:
+                    oa, _ = values(PPVStatistic(shared, dict(md, vaxis=vx)), names)
+                    ob, _ = values(PPVStatistic(stat_of(pts, 3), dict(md, vaxis=vx)), names)
+                    for k in names:
+                        same = (abs((oa[k] - ob[k] + 90) % 180 - 90) < 1e-6) if k == 'position_angle' else close(oa[k], ob[k], 1e-9)
+                        if not same and not (oa[k] != oa[k] and ob[k] != ob[k]):
+                            fails.append('%s with vaxis=%d on a ScalarStatistic already used with another vaxis is %r, on a fresh one %r'
+                                         % (k, vx, oa[k], ob[k]))
+                            break
                 if vs is not None:
                     st2 = PPVStatistic(stat_of(pts, 3), dict(md, velocity_scale=4 * vs))
                     if not close(float((1 * st2.v_rms).value), 4 * base['v_rms'], 1e-9):
